@@ -105,7 +105,7 @@ func flipMasks(c *core.Ctx) []byte { return []byte{0x01, 0x80, 0xff} }
 
 func runC05(c *core.Ctx) {
 	n := c.N(48, 1200)   // signed originals per (kind, type) class
-	full := c.N(4, 1200) // of those, how many get the every-byte-position sweep (all in thorough)
+	full := c.N(4, 150)  // of those, how many get the every-byte-position sweep
 
 	type class struct {
 		name string
